@@ -257,39 +257,11 @@ pub fn run_server_model(cfg: &ScenCfg, out: &mut RunOut) {
     if !check_opens(&expected_opens, out, "start") {
         return;
     }
-    // Which of the two legal reactions to a frame that does not verify does this implementation have? Such a
-    // frame is never acted on (C06); ending the session over it (and re-opening the port after the retry delay)
-    // is what the library does, dropping it and staying on the port is equally within C06/C07. One lone frame
-    // with a bad CRC decides it for the run; the model follows.
-    let skip_bad_crc = {
-        let mut f = rtu_frame(units.keys().next().copied().unwrap_or(1), &[3, 0, 0, 0, 1]);
-        let n = f.len();
-        f[n - 1] ^= 0x01;
-        let at = kernel::now_ns();
-        serial::line_write(PATH, &f);
-        kernel::advance(6 * MS);
-        let got = serial::line_take(PATH);
-        let calls = rig.journal.lock().unwrap().len();
-        if !got.is_empty() || calls != 0 {
-            let d = format!("a lone frame whose CRC does not verify ({}) was acted on: line carries {}, {} handler calls", hex(&f), hex(&got[..got.len().min(24)]), calls);
-            out.violate("C06", "rtu_bad_crc_frame_acted_on", d.clone());
-            out.violate("C02", "rtu_bad_crc_frame_acted_on", d);
-            return;
-        }
-        let t = at + retry.disconnected();
-        kernel::advance_to(t);
-        if serial::opens(PATH).len() == expected_opens.len() && serial::is_open(PATH) {
-            out.probe("rtu_bad_crc_session_kept_by_impl");
-            true
-        } else {
-            expected_opens.push((t, true));
-            retry.reset();
-            if !check_opens(&expected_opens, out, "after a lone frame with a bad CRC") {
-                return;
-            }
-            false
-        }
-    };
+    // A frame whose CRC does not verify ends the session (the port is re-opened after the retry delay): rodbus has
+    // no silence-based resynchronisation, discarding the receive buffer with the session is what keeps the rest
+    // of a damaged frame from being parsed as new frames (C06). An implementation that merely drops the bad
+    // frame and stays on the port is *not* equivalent (seeded change C06-r5-m2), so the model does not allow it.
+    let skip_bad_crc = false;
     let nbursts = 1 + choose(10) as usize;
     let mut wl = dec_idx as u64;
     let lenient_mode = skip_bad_crc;
